@@ -40,6 +40,10 @@ pub struct MapCase {
     /// the num_vars argument of the queries is n + extra_vars % 4 (sizes the returned partial model only)
     #[serde(default)]
     pub extra_vars: u8,
+    /// weights are powers of two down to 2^-7 (and their complements) instead of eighths: values as small as
+    /// 2^-42 and gaps between candidates far below any fixed tolerance, still exact in f64
+    #[serde(default)]
+    pub tiny: bool,
 }
 
 pub struct Map;
@@ -63,6 +67,23 @@ pub fn run_map(case: &MapCase, st: &mut Stats) -> CaseResult {
     // weights: non-query normalised k/8, query arbitrary in [0,1]
     let w = |v: usize, bit: bool| -> f64 {
         let (l, h) = case.w.get(v).copied().unwrap_or((4, 4));
+        if case.tiny {
+            let pw2 = |k: u8| (0.5f64).powi((k % 8) as i32);
+            return if qset.contains(&v) {
+                // query variables: any power of two down to 2^-15 (a power-of-two factor never costs precision), so
+                // that whole families of candidates lie below 1e-9
+                let j = if bit { (h as i32 * 9 + l as i32 + 5) % 16 } else { (l as i32 * 9 + h as i32) % 16 };
+                (0.5f64).powi(j)
+            } else {
+                // normalised: (2^-k, 1 - 2^-k), which side is the small one depends on l
+                let p = pw2(1 + h % 7);
+                if bit == (l & 1 == 1) {
+                    p
+                } else {
+                    1.0 - p
+                }
+            };
+        }
         if qset.contains(&v) {
             (if bit { h % 9 } else { l % 9 }) as f64 / 8.0
         } else {
@@ -143,6 +164,13 @@ pub fn run_map(case: &MapCase, st: &mut Stats) -> CaseResult {
     let mut dv = values.clone();
     dv.sort_by(|a, b| a.partial_cmp(b).unwrap());
     dv.dedup();
+    st.flag("map.tiny_weights", case.tiny);
+    st.flag("map.best_below_1e-9", best > 0.0 && best < 1e-9);
+    st.flag("map.two_candidates_closer_than_1e-9", {
+        let mut d = values.clone();
+        d.sort_by(|a, b| a.partial_cmp(b).unwrap());
+        d.windows(2).any(|p| p[1] != p[0] && p[1] - p[0] < 1e-9)
+    });
     st.flag("map.empty_query", q.is_empty());
     st.flag("map.all_query", q.len() == n);
     st.flag("map.query_outside_support", q.iter().any(|v| !t.depends(*v)));
@@ -156,7 +184,7 @@ pub fn run_map(case: &MapCase, st: &mut Stats) -> CaseResult {
 impl SubCheckT for Map {
     type Case = MapCase;
     const NAME: &'static str = "marginal_map";
-    const RULE: &'static str = "random function over <=6 variables under a random order; query set = any subset in any order (empty, all, variables outside the support); weights k/8 in [0,1], normalised on non-query variables, arbitrary on query variables: marginal_map and bb::<RealSemiring> return exactly the maximum over all query assignments of the weighted count restricted to the assignment (exhaustive enumeration, exact dyadic arithmetic), the returned model assigns every query variable and attains that value (any maximiser accepted on ties); num_vars = n..n+3. Non-trivial: >=2 query variables in the support and >=2 distinct values among query assignments";
+    const RULE: &'static str = "random function over <=6 variables under a random order; query set = any subset in any order (empty, all, variables outside the support); weights k/8 in [0,1] (or, in a third of the cases, powers of two down to 2^-7 and their complements, with query weights any power of two down to 2^-15, so that values go far below 1e-9 and candidates lie closer than any fixed tolerance), normalised on non-query variables, arbitrary on query variables: marginal_map and bb::<RealSemiring> return exactly the maximum over all query assignments of the weighted count restricted to the assignment (exhaustive enumeration, exact dyadic arithmetic), the returned model assigns every query variable and attains that value (any maximiser accepted on ties); num_vars = n..n+3. Non-trivial: >=2 query variables in the support and >=2 distinct values among query assignments";
     fn cases(tier: Tier) -> u32 {
         tier.pick(30_000, 300_000)
     }
@@ -169,8 +197,10 @@ impl SubCheckT for Map {
             proptest::collection::vec((0u8..9, 0u8..9), 8),
         )
             .prop_map(|(src, order, qmask, qkeys, w)| {
-                let extra_vars = (qkeys.iter().fold(0u16, |a, b| a ^ b) % 4) as u8;
-                MapCase { src, order, qmask, qkeys, w, extra_vars }
+                let x = qkeys.iter().fold(0u16, |a, b| a ^ b);
+                let extra_vars = (x % 4) as u8;
+                let tiny = (x >> 2) % 3 == 0;
+                MapCase { src, order, qmask, qkeys, w, extra_vars, tiny }
             })
             .boxed()
     }
@@ -195,6 +225,9 @@ pub struct MeuCase {
     /// the num_vars argument of the queries is n + extra_vars % 4
     #[serde(default)]
     pub extra_vars: u8,
+    /// probabilities are powers of two down to 2^-7 (and complements) instead of eighths
+    #[serde(default)]
+    pub tiny: bool,
 }
 
 pub struct Meu;
@@ -232,7 +265,16 @@ pub fn run_meu(case: &MeuCase, st: &mut Stats) -> CaseResult {
     d = idx.iter().map(|i| d[*i]).collect();
     let w = |v: usize, bit: bool| -> (f64, f64) {
         let (ps, u0, u1) = case.w.get(v).copied().unwrap_or((4, 1, 1));
-        let p = (ps % 9) as f64 / 8.0;
+        let p = if case.tiny {
+            let q = (0.5f64).powi(1 + (ps % 7) as i32);
+            if ps & 8 == 0 {
+                q
+            } else {
+                1.0 - q
+            }
+        } else {
+            (ps % 9) as f64 / 8.0
+        };
         let (u0, u1) = ((u0 % 5) as f64, (u1 % 5) as f64);
         match roles[v] {
             0 => (1.0, 0.0),
@@ -372,8 +414,10 @@ impl SubCheckT for Meu {
             proptest::collection::vec((0u8..9, 0u8..5, 0u8..5), 8),
         )
             .prop_map(|(src, order, roles, dkeys, w)| {
-                let extra_vars = (dkeys.iter().fold(0u16, |a, b| a ^ b) % 4) as u8;
-                MeuCase { src, order, roles, dkeys, w, extra_vars }
+                let x = dkeys.iter().fold(0u16, |a, b| a ^ b);
+                let extra_vars = (x % 4) as u8;
+                let tiny = (x >> 2) % 3 == 0;
+                MeuCase { src, order, roles, dkeys, w, extra_vars, tiny }
             })
             .boxed()
     }
@@ -388,7 +432,7 @@ pub fn property() -> Property {
         subs: vec![sub::<Map>(), sub::<Meu>()],
         fuzz: vec![],
         assumptions: vec![
-            "weights k/8 and small integer utilities: every value is an exactly representable dyadic, compared with ==",
+            "weights k/8 or 2^-k (k <= 7) and their complements, small integer utilities, <= 6 variables: every product and sum is an exactly representable dyadic (at most 2^-42 resolution below 64), compared with ==",
             "MEU domain as stated: decision variables carry unit weight, utilities are non-negative, every utility-bearing variable is ordered after all decision variables (built that way by the generator)",
             "on ties any maximiser is accepted",
         ],
